@@ -1,0 +1,21 @@
+//go:build verif
+
+package crypt
+
+// VerifRegistered returns a snapshot of the registered check functions by prefix.
+func VerifRegistered() map[string]func(hash, password string) error {
+	m := map[string]func(hash, password string) error{}
+	hashCache.Range(func(k, v interface{}) bool {
+		m[k.(string)] = v.(func(hash, password string) error)
+		return true
+	})
+	return m
+}
+
+// VerifResetRegistry removes every registration.
+func VerifResetRegistry() {
+	hashCache.Range(func(k, _ interface{}) bool {
+		hashCache.Delete(k)
+		return true
+	})
+}
